@@ -53,6 +53,7 @@ struct lsearchk_cgdescent_t::interval_t
         if ((bracketed && (a.f > state0.fx() + epsilonk || b.g < 0.0)) || !c.valid())
         {
             // bracketing failed or diverged
+            failed = true;
             return true;
         }
         else if (step_size < a.t || step_size > b.t)
@@ -78,6 +79,7 @@ struct lsearchk_cgdescent_t::interval_t
     solver_state_t&       c;         ///< tentative point
     lsearch_step_t        a;         ///< lower bounds of the bracketing interval
     lsearch_step_t        b;         ///< upper bounds of the bracketing interval
+    mutable bool          failed{false}; ///< stopped because the bracketing failed or diverged (not a successful step)
 };
 
 lsearchk_cgdescent_t::lsearchk_cgdescent_t()
@@ -185,14 +187,14 @@ lsearchk_t::result_t lsearchk_cgdescent_t::do_get(const solver_state_t& state0, 
     auto interval = interval_t{state0, descent, step_size, state};
     if (interval.done(params.m_c1, params.m_c2, params.m_epsilonk, false))
     {
-        return {state.valid(), interval.step_size};
+        return {state.valid() && !interval.failed, interval.step_size};
     }
 
     // bracket the initial step size
     bracket(interval, params, logger);
     if (interval.done(params.m_c1, params.m_c2, params.m_epsilonk))
     {
-        return {state.valid(), interval.step_size};
+        return {state.valid() && !interval.failed, interval.step_size};
     }
 
     const auto move_update_and_check_done = [&](const auto t)
@@ -226,20 +228,20 @@ lsearchk_t::result_t lsearchk_cgdescent_t::do_get(const solver_state_t& state0, 
 
         if (const auto tc = lsearch_step_t::secant(a0, b0); move_update_and_check_done(tc))
         {
-            return {state.valid(), interval.step_size};
+            return {state.valid() && !interval.failed, interval.step_size};
         }
         else if (std::fabs(tc - a.t) < epsilon0<scalar_t>())
         {
             if (move_update_and_check_done(lsearch_step_t::secant(a0, a)))
             {
-                return {state.valid(), interval.step_size};
+                return {state.valid() && !interval.failed, interval.step_size};
             }
         }
         else if (std::fabs(tc - b.t) < epsilon0<scalar_t>())
         {
             if (move_update_and_check_done(lsearch_step_t::secant(b0, b)))
             {
-                return {state.valid(), interval.step_size};
+                return {state.valid() && !interval.failed, interval.step_size};
             }
         }
 
@@ -248,7 +250,7 @@ lsearchk_t::result_t lsearchk_cgdescent_t::do_get(const solver_state_t& state0, 
         {
             if (move_update_and_check_done((a.t + b.t) / 2))
             {
-                return {state.valid(), interval.step_size};
+                return {state.valid() && !interval.failed, interval.step_size};
             }
         }
     }
